@@ -484,8 +484,19 @@ func checkRuns(in []int, e [3]int) *viol {
 		if src.pulls != 0 {
 			return &viol{"eager-at-construction/Runs", form + ".Runs pulled before the first Next"}
 		}
+		var stale []func() (int, bool)
 		for j := 0; j <= len(want)+1; j++ {
+			// a run that has ended stays ended, also after the outer sequence has moved on: its
+			// handle must not take items that belong to later runs
+			for si, old := range stale {
+				if x, ok := old(); ok {
+					return &viol{"end-not-sticky-or-extra-output/Runs", fmt.Sprintf("%s.Runs on %v (classes %v): the finished run #%d yielded %d again after later runs had started", form, in, e, si+1, x)}
+				}
+			}
 			inner, ok := p.outer()
+			if ok {
+				stale = append(stale, inner)
+			}
 			if j >= len(want) {
 				if ok {
 					return &viol{"end-not-sticky-or-extra-output/Runs", fmt.Sprintf("%s.Runs on %v (classes %v) yielded a run after the end", form, in, e)}
@@ -823,8 +834,14 @@ func checkEqual(a, b []int) *viol {
 	if got != want {
 		return &viol{"wrong-output/Equal", fmt.Sprintf("iterator.Equal(%v,%v) = %v", a, b, got)}
 	}
-	if got := iterator.Equal[int](&cIter{items: a}, &cIter{items: b}, &cIter{items: a}); got != want {
-		return &viol{"wrong-output/Equal", fmt.Sprintf("iterator.Equal(%v,%v,%v) = %v", a, b, a, got)}
+	// three iterators, the odd one at every position
+	for _, tr := range [][3][]int{{a, b, a}, {a, a, b}, {b, a, a}} {
+		if got := iterator.Equal[int](&cIter{items: tr[0]}, &cIter{items: tr[1]}, &cIter{items: tr[2]}); got != want {
+			return &viol{"wrong-output/Equal", fmt.Sprintf("iterator.Equal(%v,%v,%v) = %v", tr[0], tr[1], tr[2], got)}
+		}
+	}
+	if !iterator.Equal[int](&cIter{items: a}) || !iterator.Equal[int]() {
+		return &viol{"wrong-output/Equal", "iterator.Equal of one or zero iterators is not true"}
 	}
 	if xslices.Equal(a, b) != want {
 		return &viol{"xslices-disagrees/Equal", fmt.Sprintf("xslices.Equal(%v,%v)", a, b)}
